@@ -3,7 +3,9 @@ no mutation of evaluator-owned objects; delivered results are snapshots.
 
 One case = one configuration (ensemble shape, weights with zeros, filters, estimator, transforms) and a
 short history of `EnsembleEvaluator.calculate` calls (function batches, combined function+gradient calls,
-gradient-only calls that hit or miss the function cache = split evaluations) on ONE real EnsembleEvaluator.
+gradient-only calls that hit or miss the function cache = split evaluations) on ONE real EnsembleEvaluator,
+issued directly or through a real optimizer / evaluator step of a Plan (then the results are what an event
+observer receives, in the optimizer domain and as user-domain copies).
 The user evaluator is a recording, memoising, monitored callable owned by the harness:
 
  (a) layout      -- the labels (realizations / perturbations) and the variable rows of every request are
@@ -18,7 +20,9 @@ The user evaluator is a recording, memoising, monitored callable owned by the ha
  (d) monitor     -- the returned result object records __setattr__, its arrays are harness-owned buffers that
                     are compared before/after, delivered results are re-hashed after every later call and
                     after the evaluator overwrites its buffers; the observed foreign writes are compared
-                    with the (empty) list of Model/Store.v.
+                    with the (empty) list of Model/Store.v.  Monitored: every array reachable from every delivered
+                    result (both domains), its base, the evaluation_info dicts, the arrays handed to the evaluator
+                    and the caller's variable vector (overwritten after every call).
 """
 from __future__ import annotations
 
@@ -116,7 +120,11 @@ def _gen_weights(rng, R, zero_bias):
 
 
 def gen_one(rng, *, small=False, region=None):
-    """One structured random case.  region: None | 'objfilter' | 'confilter' = split evaluations with only one kind of function filtered."""
+    """One structured random case.  region: None | 'objfilter' | 'confilter' = split evaluations with only one kind of
+    function filtered | 'twosplit' = the same with two split evaluations at different points on one EnsembleEvaluator."""
+    two = region == "twosplit"
+    if two:
+        region = rng.choice(["objfilter", "confilter"])
     R = rng.randint(1, 3 if small else 6)
     P = rng.randint(1, 3 if small else 5)
     V = rng.randint(1, 3)
@@ -124,13 +132,13 @@ def gen_one(rng, *, small=False, region=None):
     ncon = rng.choice([0, 1, 1, 2])
     if region:
         ncon = max(ncon, 1)
-        R = max(R, 2)
+        R = max(R, 3 if two else 2)
     weights = _gen_weights(rng, R, rng.choice([0.0, 0.3, 0.5]) if not region else 0.4)
     if region and all(weights):
         weights[rng.randrange(R)] = 0
         if not any(weights):
             weights[0] = 1
-    npts = rng.randint(1, 3)
+    npts = rng.randint(2 if two else 1, 3)
     pts = []
     while len(pts) < npts:
         x = [_dy(rng, -16, 16, 8) for _ in range(V)]
@@ -161,10 +169,14 @@ def gen_one(rng, *, small=False, region=None):
     ot = [2.0 ** rng.randint(-2, 3) for _ in range(nobj)] if rng.random() < 0.4 else None
     ct = [2.0 ** rng.randint(-2, 3) for _ in range(ncon)] if (ncon and rng.random() < 0.4) else None
     # history of calls
-    ncalls = rng.randint(1, 2 if small else 4)
+    ncalls = 4 if two else rng.randint(1, 2 if small else 4)
     calls = []
     for _ in range(ncalls):
         t = rng.random()
+        if two and len(calls) >= 2:
+            b = rng.choice([i for i in range(npts) if i != calls[0][1][0]])
+            calls += [["F", [b]], ["G", b]]
+            break
         if region and not calls:
             calls.append(["F", [rng.randrange(npts)]])
         elif region and len(calls) == 1:
@@ -190,16 +202,47 @@ def gen_one(rng, *, small=False, region=None):
     if rng.random() < 0.3:
         for _ in range(rng.randint(1, 3)):
             fails.append([rng.randrange(ncalls), rng.randrange(R * max(P, 2) + R), rng.randrange(2)])
+    pert_min = rng.choice([1, 1, 1, P])
+    if not filters and est == "mean" and not fails and R >= 2 and rng.random() < 0.3:
+        # a negative realization weight is valid as long as the sum stays positive: "inactive" means |w| = 0
+        pos = [i for i, w in enumerate(weights) if w > 0]
+        i = rng.randrange(R)
+        rest = sum(w for j, w in enumerate(weights) if j != i)
+        if rest >= 2 and not (len(pos) == 1 and pos[0] == i):
+            weights[i] = -rng.randint(1, rest - 1)
     return {
         "R": R, "P": P, "V": V, "nobj": nobj, "ncon": ncon, "weights": weights,
         "oweights": [rng.randint(1, 3) for _ in range(nobj)],
         "pts": pts, "calls": calls, "filters": filters, "ofil": ofil, "cfil": cfil,
         "est": est, "merge": merge, "vt": vt, "ot": ot, "ct": ct,
         "mags": [2.0 ** rng.randint(-3, 0) for _ in range(V)],
-        "min_success": rng.choice([0, 0, 1]), "pert_min": 1,
+        "min_success": rng.choice([0, 0, 1]), "pert_min": pert_min,
         "fails": fails, "mode": rng.choice(["memo", "memo", "reuse", "reuse-ro", "fresh"]),
         "vseed": rng.randrange(1 << 20), "garb": "std",
+        "route": "direct", "mask": None, "info2": rng.random() < 0.3,
     }
+
+
+def _routed(rng, case, region=None):
+    """Send a case through a real plan step (results reach an event observer) or give it a variable mask."""
+    t = rng.random()
+    if t < 0.22:
+        case["route"] = "opt-step"
+    elif t < 0.32 and region is None:
+        # an evaluator step evaluates one batch of vectors
+        first = next((c for c in case["calls"] if c[0] == "F"), None)
+        if first is None:
+            first = ["F", [rng.randrange(len(case["pts"])) for _ in range(rng.randint(1, 3))]]
+        case["calls"] = [first]
+        case["fails"] = [f for f in case["fails"] if f[0] == 0]
+        case["route"] = "eval-step"
+    elif t < 0.45 and case["V"] >= 2:
+        m = [rng.random() < 0.6 for _ in range(case["V"])]
+        if not any(m):
+            m[rng.randrange(case["V"])] = True
+        if not all(m):
+            case["mask"] = m
+    return case
 
 
 def _grid_cases():
@@ -220,6 +263,7 @@ def _grid_cases():
                     "ot": [4.0] if P % 2 else None, "ct": [0.5] if R % 2 else None, "mags": [0.5, 0.25],
                     "min_success": 0, "pert_min": 1, "fails": [], "mode": ("memo", "reuse", "fresh", "reuse-ro")[(R + B) % 4],
                     "vseed": 1000 * R + 100 * P + 10 * B + sum(zeros), "garb": "std",
+                    "route": ("direct", "opt-step")[(R + P) % 2], "mask": None, "info2": bool(B % 2),
                 }
 
 
@@ -231,11 +275,14 @@ def gen_cases(tier, rng):
             reg = "objfilter"
         elif i % 12 == 9:
             reg = "confilter"
-        yield gen_one(rng, small=(i % 5 == 0), region=reg)
+        elif i % 12 == 2:
+            reg = "twosplit"
+        yield _routed(rng, gen_one(rng, small=(i % 5 == 0), region=reg), reg)
     # small separate stream: garbage >= 1e150 in run B (region of the known finding C06:huge-garbage-overflow)
     for i in range(20 if tier == "quick" else 200):
         c = gen_one(rng, small=(i % 2 == 0))
         c["filters"], c["ofil"], c["cfil"] = [], None, None
+        c["weights"] = [abs(w) for w in c["weights"]]
         if all(c["weights"]) and c["R"] > 1:
             c["weights"][rng.randrange(c["R"])] = 0
         if i % 2 == 0 and sum(1 for w in c["weights"] if w) >= 2:
@@ -295,6 +342,7 @@ def _config(case, transforms):
     # initial values are given in the user domain; only their number matters here
     d = {
         "variables": {"initial_values": [0.0] * V},
+        "optimizer": {"method": "c06/script"} if case.get("route", "direct") == "opt-step" else {},
         "objectives": {"weights": list(case["oweights"])},
         "realizations": {"weights": list(case["weights"]), "realization_min_success": case["min_success"]},
         "gradient": {"number_of_perturbations": case["P"], "perturbation_min_success": case["pert_min"],
@@ -302,6 +350,8 @@ def _config(case, transforms):
         "function_estimators": [{"method": case["est"]}],
         "samplers": [{"method": "c06/det"}],
     }
+    if case.get("mask") is not None:
+        d["variables"]["mask"] = list(case["mask"])
     if case["ofil"] is not None:
         d["objectives"]["realization_filters"] = list(case["ofil"])
     if ncon:
@@ -318,7 +368,8 @@ def _tolist(a):
 
 
 def _walk(obj, path=""):
-    """(path, ndarray) for every array reachable from a results object."""
+    """(path, ndarray) for every array reachable from a results object (tuples/lists of results, nested
+    dataclasses, dict values such as evaluation_info)."""
     import dataclasses
 
     import numpy as np
@@ -327,7 +378,7 @@ def _walk(obj, path=""):
     if isinstance(obj, np.ndarray):
         yield path, obj
     elif isinstance(obj, dict):
-        for k in sorted(obj):
+        for k in sorted(obj, key=str):
             yield from _walk(obj[k], f"{path}.{k}")
     elif isinstance(obj, (list, tuple)):
         for i, v in enumerate(obj):
@@ -339,11 +390,39 @@ def _walk(obj, path=""):
             yield from _walk(getattr(obj, f.name), f"{path}.{f.name}" if path else f.name)
 
 
+def _walk_other(obj, path=""):
+    """(path, repr) for everything reachable from a results object that is NOT an array: scalars, None, the key
+    sets of dicts, the lengths of sequences (so that a snapshot whose dict gains a key or whose field is rebound
+    to another value is seen to change)."""
+    import dataclasses
+
+    import numpy as np
+    if isinstance(obj, np.ndarray):
+        return
+    if isinstance(obj, dict):
+        yield path + "#keys", repr(sorted(map(str, obj)))
+        for k in sorted(obj, key=str):
+            yield from _walk_other(obj[k], f"{path}.{k}")
+    elif isinstance(obj, (list, tuple)):
+        yield path + "#len", str(len(obj))
+        for i, v in enumerate(obj):
+            yield from _walk_other(v, f"{path}[{i}]")
+    elif dataclasses.is_dataclass(obj) and not isinstance(obj, type):
+        for f in dataclasses.fields(obj):
+            if f.name in ("metadata",):
+                continue
+            yield from _walk_other(getattr(obj, f.name), f"{path}.{f.name}" if path else f.name)
+    else:
+        yield path + "#value", repr(obj)
+
+
 def _digest(results):
     import hashlib
     out = {}
     for path, a in _walk(results):
         out[path] = hashlib.sha1(a.tobytes() + str(a.shape).encode() + str(a.dtype).encode()).hexdigest()
+    for path, r in _walk_other(results):
+        out[path] = r
     return out
 
 
@@ -374,21 +453,44 @@ def _report(res):
     return d
 
 
+ANCHORED = ("ensemble_evaluator/_evaluator_results.py", "ensemble_evaluator/_ensemble_evaluator.py",
+            "evaluator/_evaluator.py", "results/")
+
+
+def _raise_site(exc):
+    """Innermost ropt frame of an exception: 'relative/file.py:function'."""
+    import traceback
+    site = None
+    for fr in traceback.extract_tb(exc.__traceback__):
+        fn = fr.filename.replace("\\", "/")
+        if "/ropt/" in fn:
+            site = fn.split("/ropt/", 1)[1] + ":" + fr.name
+    return site
+
+
 def _run_once(case, run):
-    """One complete history on a fresh EnsembleEvaluator; `run` selects the garbage (0 = A, 1 = B)."""
+    """One complete history on a fresh EnsembleEvaluator; `run` selects the garbage (0 = A, 1 = B).
+    route 'direct': the harness calls EnsembleEvaluator.calculate itself (and makes the user-domain copies the
+    steps make); 'opt-step': a real optimizer step of a Plan whose (scripted) optimizer issues the history through
+    the optimizer callback; 'eval-step': a real evaluator step.  In the step routes the results are what the
+    FINISHED_EVALUATION event hands to an observer (`results` and `transformed_results`)."""
     import warnings
 
     import numpy as np
     from ropt.ensemble_evaluator import EnsembleEvaluator
+    from ropt.enums import EventType
     from ropt.evaluator import EvaluatorResult
     from ropt.exceptions import OptimizationAborted
     from ropt.plugins import PluginManager
+    from ropt.plugins.optimizer.base import Optimizer, OptimizerPlugin
     from ropt.plugins.sampler.base import Sampler, SamplerPlugin
 
     warnings.simplefilter("ignore")
     R, P, V, nobj, ncon, vseed = case["R"], case["P"], case["V"], case["nobj"], case["ncon"], case["vseed"]
     st = {"gcount": 0, "call": -1}
     big = case.get("garb") == "big"
+    route = case.get("route", "direct")
+    info2 = bool(case.get("info2"))
 
     class DetSampler(Sampler):
         def __init__(self, enopt_config, sampler_index, mask, rng):
@@ -428,9 +530,12 @@ def _run_once(case, run):
     mode = case["mode"]
     memo = {}
     nmax = R * (max(P, 1) + 1) * 4 + 8
-    pool = {"o": np.zeros((nmax, nobj)), "c": np.zeros((nmax, max(ncon, 1))), "id": np.zeros(nmax, dtype=np.int64)}
+    pool = {"o": np.zeros((nmax, nobj)), "c": np.zeros((nmax, max(ncon, 1))), "id": np.zeros(nmax, dtype=np.int64),
+            "t": np.zeros(nmax)}
     shared_obj = []
     owned = []          # every buffer the evaluator ever handed out: (name, array)
+    info_dicts = []     # every evaluation_info dict the evaluator ever handed out
+    handed = []         # every array ropt handed to the evaluator: (name, array)
     requests = []       # per evaluator invocation
     fails = {(c, i): w for c, i, w in case["fails"]}
 
@@ -442,6 +547,11 @@ def _run_once(case, run):
         ao = None if context.active_objectives is None else np.array(context.active_objectives)
         ac = None if context.active_constraints is None else np.array(context.active_constraints)
         agg = None if context.active is None else np.array(context.active)   # per realization: what a lazy evaluator looks at
+        for name, a in (("request-rows", variables), ("context", context.realizations), ("context", context.perturbations),
+                        ("context", context.active_objectives), ("context", context.active_constraints),
+                        ("context", context.active)):
+            if isinstance(a, np.ndarray):
+                handed.append((name, a))
         req = {"call": call, "rows": variables.tolist(), "realizations": reals.tolist(),
                "perturbations": None if perts is None else perts.tolist(),
                "ao": _tolist(ao), "ac": _tolist(ac), "active": _tolist(context.active),
@@ -473,19 +583,22 @@ def _run_once(case, run):
                     else:
                         o[i, 0] = np.nan
             ids = np.arange(n, dtype=np.int64) + 100 * (len(requests) + 1)
+            ts = ids * 0.5 + 0.25
             if mode in ("reuse", "reuse-ro") and n <= nmax:
                 pool["o"][:n] = o
                 pool["id"][:n] = ids
-                bo, bid = pool["o"][:n], pool["id"][:n]
+                pool["t"][:n] = ts
+                bo, bid, bt = pool["o"][:n], pool["id"][:n], pool["t"][:n]
                 bc = None
                 if ncon:
                     pool["c"][:n] = c
                     bc = pool["c"][:n]
                 if mode == "reuse-ro":
                     # the evaluator hands out READ-ONLY views of buffers it keeps overwriting
-                    bo, bid = bo.view(), bid.view()
+                    bo, bid, bt = bo.view(), bid.view(), bt.view()
                     bo.flags.writeable = False
                     bid.flags.writeable = False
+                    bt.flags.writeable = False
                     if bc is not None:
                         bc = bc.view()
                         bc.flags.writeable = False
@@ -494,26 +607,34 @@ def _run_once(case, run):
                 obj = shared_obj[0]
                 obj.__dict__["_armed"] = False
                 obj.objectives, obj.constraints, obj.batch_id = bo, bc, len(requests)
-                obj.evaluation_info = {"id": bid}
+                obj.evaluation_info = {"id": bid, "t": bt} if info2 else {"id": bid}
             else:
-                obj = MonResult(objectives=o, constraints=c, batch_id=len(requests), evaluation_info={"id": ids})
+                obj = MonResult(objectives=o, constraints=c, batch_id=len(requests),
+                                evaluation_info={"id": ids, "t": ts} if info2 else {"id": ids})
             if mode == "memo":
                 memo[key] = obj
-        for name, a in (("objectives", obj.objectives), ("constraints", obj.constraints),
-                        ("info.id", obj.evaluation_info["id"])):
+        for name, a in [("objectives", obj.objectives), ("constraints", obj.constraints)] + \
+                [("info." + k_, v_) for k_, v_ in obj.evaluation_info.items()]:
             if a is not None and not any(a is b for _, b in owned):
                 owned.append((name, a))
+        if not any(obj.evaluation_info is d_ for d_ in info_dicts):
+            info_dicts.append(obj.evaluation_info)
         # what the evaluator returned, as seen at return time
         req["out_o"] = obj.objectives.tolist()
         req["out_c"] = _tolist(obj.constraints)
         req["out_id"] = obj.evaluation_info["id"].tolist()
+        req["out_info"] = {k_: v_.tolist() for k_, v_ in sorted(obj.evaluation_info.items())}
         req["batch_id"] = obj.batch_id
+        shadow = {"objectives": obj.objectives.copy(),
+                  "constraints": None if obj.constraints is None else obj.constraints.copy()}
+        for k_, v_ in obj.evaluation_info.items():
+            shadow["info." + k_] = v_.copy()
         st["watch"] = {
             "obj": obj, "attrs": {k: v for k, v in obj.__dict__.items() if not k.startswith("_")},
-            "info_items": dict(obj.evaluation_info),
-            "shadow": {"objectives": obj.objectives.copy(),
-                       "constraints": None if obj.constraints is None else obj.constraints.copy(),
-                       "info.id": obj.evaluation_info["id"].copy()},
+            "info_items": dict(obj.evaluation_info), "shadow": shadow,
+            "writeable": {name: (None if a is None else bool(a.flags.writeable)) for name, a in
+                          [("objectives", obj.objectives), ("constraints", obj.constraints)] +
+                          [("info." + k_, v_) for k_, v_ in obj.evaluation_info.items()]},
         }
         obj.__dict__["_log"] = []
         obj.__dict__["_armed"] = True
@@ -533,29 +654,37 @@ def _run_once(case, run):
         for k in sorted(set(now) | set(w["attrs"])):
             if k not in now or k not in w["attrs"] or now[k] is not w["attrs"][k]:
                 ev.append("attr-replaced:" + k)
-        if set(obj.evaluation_info) != set(w["info_items"]) or any(
-                obj.evaluation_info[k] is not v for k, v in w["info_items"].items() if k in obj.evaluation_info):
+        info_now = w["attrs"]["evaluation_info"]          # the dict object the evaluator handed out
+        if set(info_now) != set(w["info_items"]) or any(
+                info_now[k] is not v for k, v in w["info_items"].items() if k in info_now):
             ev.append("info-dict-changed")
         for name, shadow in w["shadow"].items():
             cur = w["attrs"]["objectives"] if name == "objectives" else \
-                w["attrs"]["constraints"] if name == "constraints" else w["info_items"]["id"]
+                w["attrs"]["constraints"] if name == "constraints" else w["info_items"][name[5:]]
             if shadow is None:
                 continue
-            if cur.shape != shadow.shape or cur.tobytes() != shadow.tobytes():
+            if cur.shape != shadow.shape or cur.dtype != shadow.dtype or cur.tobytes() != shadow.tobytes():
                 ev.append("buffer-changed:" + name)
+            if bool(cur.flags.writeable) != w["writeable"][name]:
+                ev.append("flags-changed:" + name)       # ropt changed the write flag of an array it does not own
         return ev
 
-    ee = EnsembleEvaluator(config, transforms, evaluator, pm)
-    delivered = []      # (call index, results tuple, digest)
-    xbases = []         # buffers behind read-only variable vectors handed to calculate()
+    delivered = []      # (call index, tag, results, digest)
+    xbases = []         # every buffer behind a variable vector handed to calculate() / the optimizer callback
     calls_obs = []
     cfg_obs = {"weights": config.realizations.weights.tolist(), "mags": config.gradient.perturbation_magnitudes.tolist(),
                "has_filters": bool(case["filters"])}
-    for k, (kind, arg) in enumerate(case["calls"]):
-        st["call"] = k
-        st["watch"] = None
-        st.pop("last_samples", None)
-        nreq = len(requests)
+
+    def changed(tag):
+        out = []
+        for (k0, t0, r0, d0) in delivered:
+            d1 = _digest(r0)
+            for path in sorted(set(d0) | set(d1)):
+                if d1.get(path) != d0.get(path):
+                    out.append(f"{tag}:call{k0}:{t0}:{path}")
+        return out
+
+    def make_x(k, kind, arg):
         if kind == "F":
             x = np.array([case["pts"][i] for i in arg], dtype=np.float64)
             if len(arg) == 1 and (vseed + k) % 2:
@@ -564,60 +693,183 @@ def _run_once(case, run):
         else:
             x = np.array(case["pts"][arg], dtype=np.float64)
             flags = (True, True) if kind == "FG" else (False, True)
-        x_before = x.copy()
+        xbase = x
         if (vseed + 2 * k) % 3 == 0:
-            xbase = x.copy()
-            xbases.append(xbase)
+            # the caller hands in a read-only view of a buffer it keeps re-using
             x = xbase.view()
             x.flags.writeable = False
-        co = {"kind": kind, "outcome": "ok", "results": [], "requests": [], "events": []}
+        xbases.append(xbase)
+        return x, xbase, flags
+
+    def one_call(k, kind, arg, invoke):
+        """invoke(x, flags) -> (results in the optimizer domain, their user-domain copies or None)."""
+        st["call"] = k
+        st["watch"] = None
+        st.pop("last_samples", None)
+        nreq = len(requests)
+        x, xbase, flags = make_x(k, kind, arg)
+        x_before = xbase.copy()
+        co = {"kind": kind, "outcome": "ok", "results": [], "user": None, "requests": [], "events": []}
+        res = user = None
+        stop = None
         try:
-            res = ee.calculate(x, compute_functions=flags[0], compute_gradients=flags[1])
+            res, user, stop = invoke(x, flags)
         except OptimizationAborted as e:
-            res = None
             co["outcome"] = "abort:" + str(getattr(e.exit_code, "name", e.exit_code))
+            stop = e
         except Exception as e:  # noqa: BLE001 - the class is the observation
-            res = None
             co["outcome"] = "raise:" + type(e).__name__
             co["message"] = str(e)[:200]
+            co["site"] = _raise_site(e)
+            stop = e
         co["requests"] = requests[nreq:]
         co["samples"] = st.get("last_samples")
         co["events"] += monitor_events()
-        if not np.array_equal(x, x_before):
+        if not np.array_equal(xbase, x_before):
             co["events"].append("input-variables-changed")
         # earlier deliveries must not have changed
-        for (k0, r0, d0) in delivered:
-            d1 = _digest(r0)
-            for path in sorted(d0):
-                if d1.get(path) != d0[path]:
-                    co["events"].append(f"delivered-changed:call{k0}:{path}")
+        co["events"] += changed("delivered-changed")
         if res is not None:
             co["results"] = [_report(r) for r in res]
-            for idx, r in enumerate(res):
-                for path, a in _walk(r):
-                    if a.flags.writeable:
-                        co["events"].append(f"writeable:{idx}:{path}")
-                    for name, b in owned:
-                        if np.shares_memory(a, b):
-                            co["events"].append(f"alias:{idx}:{path}:{name}")
-            delivered.append((k, res, _digest(res)))
+            if user is not None:
+                co["user"] = [_report(r) for r in user]
+            for tag, rs in (("opt", res), ("user", user)):
+                if rs is None:
+                    continue
+                for idx, r in enumerate(rs):
+                    for path, a in _walk(r):
+                        if a.flags.writeable:
+                            co["events"].append(f"writeable:{tag}{idx}:{path}")
+                        base = a
+                        while isinstance(base.base, np.ndarray):
+                            base = base.base
+                        if base is not a and base.flags.writeable:
+                            co["events"].append(f"writeable-base:{tag}{idx}:{path}")
+                        for name, b in owned:
+                            if np.shares_memory(a, b):
+                                co["events"].append(f"alias:{tag}{idx}:{path}:{name}")
+                        for name, b in handed:
+                            if np.shares_memory(a, b):
+                                co["events"].append(f"alias:{tag}{idx}:{path}:{name}")
+                        if np.shares_memory(a, xbase):
+                            co["events"].append(f"alias:{tag}{idx}:{path}:caller-x")
+                    if any(r.evaluations.evaluation_info is d_ for d_ in info_dicts):
+                        co["events"].append(f"alias:{tag}{idx}:evaluation_info:info.dict")
+                delivered.append((k, tag, rs, _digest(rs)))
+        # the caller re-uses its variable vector (as every optimizer does)
+        if xbase.flags.writeable:
+            xbase[...] = 4242.5 + k
+        else:
+            co["events"].append("flags-changed:caller-x")       # ropt froze an array it does not own
+        co["events"] += changed("delivered-changed-after-caller-reuse")
         calls_obs.append(co)
-        if co["outcome"] != "ok":
-            break
-    # the evaluator now reuses (overwrites) every buffer it owns; deliveries must be unaffected
-    final_events = []
+        return stop
+
+    def user_copies(res):
+        return None if transforms is None else [item.transform_from_optimizer(transforms) for item in res]
+
+    if route == "direct":
+        ee = EnsembleEvaluator(config, transforms, evaluator, pm)
+
+        def invoke(x, flags):
+            res = ee.calculate(x, compute_functions=flags[0], compute_gradients=flags[1])
+            return res, user_copies(res), None
+
+        for k, (kind, arg) in enumerate(case["calls"]):
+            if one_call(k, kind, arg, invoke) is not None:
+                break
+    else:
+        from ropt.plan import OptimizerContext, Plan
+        box = {}
+
+        def on_results(event):
+            box["data"] = dict(event.data)
+
+        def via_event(thunk):
+            """Run one request through the step; what the observer of FINISHED_EVALUATION received is the delivery."""
+            box.pop("data", None)
+            stop = None
+            try:
+                thunk()
+            except OptimizationAborted as e:
+                if "data" not in box:
+                    raise
+                stop = e            # results were delivered, then the step gave up (too few realizations)
+            data = box.get("data")
+            if data is None:
+                return None, None, stop
+            if "transformed_results" in data:
+                return tuple(data["transformed_results"]), list(data["results"]), stop
+            return tuple(data["results"]), None, stop
+
+        class Scripted(Optimizer):
+            def __init__(self, enopt_config, cb):
+                self._cb = cb
+
+            def start(self, initial_values):
+                for k, (kind, arg) in enumerate(case["calls"]):
+                    def invoke(x, flags):
+                        return via_event(lambda: self._cb(x, return_functions=flags[0], return_gradients=flags[1]))
+                    stop = one_call(k, kind, arg, invoke)
+                    if stop is not None:
+                        if isinstance(stop, OptimizationAborted):
+                            raise stop
+                        return
+
+            @property
+            def allow_nan(self):
+                return True
+
+            @property
+            def is_parallel(self):
+                return True
+
+        class ScriptedPlugin(OptimizerPlugin):
+            def create(self, enopt_config, cb):
+                return Scripted(enopt_config, cb)
+
+            def is_supported(self, method):
+                return method.lower() == "script"
+
+        pm.add_plugin("optimizer", "c06", ScriptedPlugin())
+        ctx = OptimizerContext(evaluator=evaluator, plugin_manager=pm)
+        ctx.add_observer(EventType.FINISHED_EVALUATION, on_results)
+        plan = Plan(ctx)
+        if route == "opt-step":
+            step = plan.add_step("optimizer")
+            plan.run_step(step, config=config, transforms=transforms)
+        else:
+            step = plan.add_step("evaluator")
+            kind, arg = case["calls"][0]
+
+            def invoke(x, flags):
+                code = {}
+                out = via_event(lambda: code.setdefault(
+                    "exit", plan.run_step(step, config=config, transforms=transforms, variables=x)))
+                if out[0] is None:
+                    # the step swallowed an abort raised inside calculate(): nothing was delivered
+                    raise OptimizationAborted(exit_code=code.get("exit"))
+                return out
+
+            one_call(0, kind, arg, invoke)
+    # the evaluator now reuses (overwrites) every buffer it owns and every array it was ever handed, and edits
+    # the evaluation_info dicts it handed out; the caller overwrites its vectors; deliveries must be unaffected
     for name, b in owned:
         if b.flags.writeable:
             b[...] = 777 if b.dtype.kind == "i" else -12345.5
     for arr in pool.values():
         arr[...] = 999 if arr.dtype.kind == "i" else 54321.25
+    for name, b in handed:
+        if b.flags.writeable:
+            b[...] = 1 if b.dtype.kind in "biu" else 31337.5
+    for d_ in info_dicts:
+        for k_ in list(d_):
+            d_[k_] = np.full(3, 5)
+        d_["late"] = np.arange(2)
     for arr in xbases:
-        arr[...] = 4242.5
-    for (k0, r0, d0) in delivered:
-        d1 = _digest(r0)
-        for path in sorted(d0):
-            if d1.get(path) != d0[path]:
-                final_events.append(f"delivered-changed-after-reuse:call{k0}:{path}")
+        if arr.flags.writeable:
+            arr[...] = 4242.5
+    final_events = changed("delivered-changed-after-reuse")
     return {"config": cfg_obs, "calls": calls_obs, "final_events": final_events}
 
 
@@ -757,6 +1009,12 @@ def oracle_run(case, run_obs, other=None):
         # ---- (d) monitor
         if co["events"]:
             return {"clause": "no-mutation-snapshots", "detail": {"call": k, "events": co["events"][:8]}}
+        if co["outcome"].startswith("raise:"):
+            # an exception out of the request/report code itself, or a refused write into a read-only array
+            site, msg = co.get("site") or "", co.get("message") or ""
+            if "read-only" in msg or any(a in site for a in ANCHORED):
+                return {"clause": "no-mutation-snapshots" if "read-only" in msg else "request-pipeline-raised",
+                        "detail": {"call": k, "outcome": co["outcome"], "site": site, "message": msg}}
         if co["outcome"] != "ok":
             break
         # ---- (b) provenance
@@ -775,14 +1033,15 @@ def oracle_run(case, run_obs, other=None):
             if r_["type"] == "F":
                 lo = idx * R if ek == "F" else 0
                 want = {"objectives": block(o_p, lo, R), "constraints": block(c_p, lo, R),
-                        "info": {"id": rq["out_id"][lo:lo + R]},
+                        "info": {k_: v_[lo:lo + R] for k_, v_ in rq["out_info"].items()},
                         "variables": case["pts"][arg[idx]] if kind == "F" else case["pts"][arg]}
             else:
                 lo = R if ek == "B" else 0
                 def cube(rows):
                     return None if rows is None else [[rows[lo + r * P + p] for p in range(P)] for r in range(R)]
                 want = {"objectives": cube(o_p), "constraints": cube(c_p),
-                        "info": {"id": [[rq["out_id"][lo + r * P + p] for p in range(P)] for r in range(R)]},
+                        "info": {k_: [[v_[lo + r * P + p] for p in range(P)] for r in range(R)]
+                                 for k_, v_ in rq["out_info"].items()},
                         "variables": case["pts"][arg], "pv": pv}
             for f, wv in want.items():
                 if not _same(r_[f], wv):
@@ -790,6 +1049,40 @@ def oracle_run(case, run_obs, other=None):
                                                                "reported": r_[f], "expected": wv}}
             if r_["batch_id"] != rq["batch_id"]:
                 return {"clause": "provenance", "detail": {"call": k, "field": "batch_id"}}
+        # ---- (a)+(b) once more in the USER domain, without any model of the transforms: the copies handed to event
+        #      handlers must show the very vectors the evaluator was given and (at active entries) the very values it
+        #      returned for them (power-of-two scales: x / s * s is exact)
+        has_tr = case["vt"] is not None or case["ot"] is not None or case["ct"] is not None
+        if (co["user"] is None) == has_tr:
+            return {"clause": "provenance-user-domain", "detail": {"call": k, "user copies": co["user"] is not None,
+                                                                   "transforms": has_tr}}
+        if co["user"] is not None:
+            raw_o, raw_c = _nan_rows(rq["out_o"], rq["out_c"])
+            if [u["type"] for u in co["user"]] != want_types:
+                return {"clause": "provenance-user-domain", "detail": {"call": k, "types": [u["type"] for u in co["user"]]}}
+            for idx, u in enumerate(co["user"]):
+                if u["type"] == "F":
+                    lo = idx * R if ek == "F" else 0
+                    want = {"variables": rq["rows"][lo], "objectives": block(raw_o, lo, R), "constraints": block(raw_c, lo, R)}
+                    if any(not _same(rq["rows"][lo + r], rq["rows"][lo]) for r in range(R)):
+                        return {"clause": "layout-rows", "detail": {"call": k, "block": idx}}
+                else:
+                    lo = R if ek == "B" else 0
+                    def ucube(rows):
+                        return None if rows is None else [[rows[lo + r * P + p] for p in range(P)] for r in range(R)]
+                    want = {"pv": ucube(rq["rows"]), "objectives": ucube(raw_o), "constraints": ucube(raw_c)}
+                    if ek == "B":
+                        want["variables"] = rq["rows"][0]
+                for f, wv in want.items():
+                    got = u[f]
+                    if f in ("objectives", "constraints"):
+                        fl = ao if f == "objectives" else ac
+                        got, wv = _mask_inactive(got, fl), _mask_inactive(wv, fl)
+                    if not _same(got, wv):
+                        return {"clause": "provenance-user-domain", "detail": {"call": k, "kind": ek, "result": idx, "field": f,
+                                                                               "reported": got, "expected": wv}}
+                if not _same(u["info"], res[idx]["info"]):
+                    return {"clause": "provenance-user-domain", "detail": {"call": k, "result": idx, "field": "info"}}
         # ---- cache for split evaluations (function_results[0] of a function-only call; cleared by a combined call)
         if ek == "F":
             cache = (arg[0], res[0]["ow"], res[0]["cw"])
@@ -863,7 +1156,8 @@ def oracle(case, obs):
 # ---------------------------------------------------------------------------------------------
 # Gallina printer
 # ---------------------------------------------------------------------------------------------
-_FIELD = {"objectives": "FObj", "constraints": "FCon", "info.id": "FInfo", "evaluation_info": "FInfo", "info": "FInfo"}
+_FIELD = {"objectives": "FObj", "constraints": "FCon", "info.id": "FInfo", "info.t": "FInfo", "info.dict": "FInfo",
+          "evaluation_info": "FInfo", "info": "FInfo", "request-rows": "FVar", "caller-x": "FVar", "variables": "FVar"}
 
 
 def _code(ev: str) -> str:
@@ -871,7 +1165,7 @@ def _code(ev: str) -> str:
     if parts[0] in ("setattr", "attr-replaced"):
         f = _FIELD.get(parts[1])
         return f"(CSetAttr {f})" if f else "COther"
-    if parts[0] == "buffer-changed":
+    if parts[0] in ("buffer-changed", "flags-changed"):
         f = _FIELD.get(parts[1])
         return f"(CBufferChanged {f})" if f else "COther"
     if parts[0] == "alias":
@@ -879,6 +1173,8 @@ def _code(ev: str) -> str:
         return f"(CAlias {f})" if f else "COther"
     if parts[0].startswith("delivered-changed"):
         return "CDeliveredChanged"
+    if parts[0] == "input-variables-changed":
+        return "(CBufferChanged FVar)"
     return "COther"
 
 
@@ -975,7 +1271,7 @@ def coq_case(case, obs):
         samples = "[]" if smp is None else cq.lst(
             cq.lst(cq.qs([_sample(case["vseed"], smp, r, p, v) for v in range(V)]) for p in range(P)) for r in range(R))
         if rq is None:
-            rq = {"realizations": [], "perturbations": None, "rows": [], "ao": None, "ac": None,
+            rq = {"realizations": [], "perturbations": None, "rows": [], "ao": None, "ac": None, "active": None,
                   "out_o": [], "out_c": None, "out_id": []}
         for row in rq["out_o"] + (rq["out_c"] or []):
             for v in row:
@@ -986,9 +1282,10 @@ def coq_case(case, obs):
             raise ValueError("negative label")
         ok = co["outcome"] == "ok"
         calls.append(
-            "(Build_callobs %s %s %s %s %s %s %s %s %s %s %s %s %s %s %s %s)" % (
+            "(Build_callobs %s %s %s %s %s %s %s %s %s %s %s %s %s %s %s %s %s)" % (
                 _req_term(kind, arg), samples, cq.b(ok), cq.b(len(co["requests"]) == 1),
                 cq.nats(rq["realizations"]), pert, cq.qmat(rq["rows"]), _am(rq["ao"]), _am(rq["ac"]),
+                "None" if rq.get("active") is None else f"(Some {cq.bs(rq['active'])})",
                 _orows(rq["out_o"]), _oopt(rq["out_c"], _orows), cq.nats(rq["out_id"]),
                 cq.lst(_res_term(r) for r in co["results"]) if ok else "[]",
                 cq.lst(_code(e) for e in co["events"]),
@@ -1056,6 +1353,12 @@ def features(case, obs):
         "R": case["R"], "P": case["P"], "B": max([len(a) for k_, a in case["calls"] if k_ == "F"] or [0]),
         "calls": len(case["calls"]), "kinds": "".join(kinds), "split": "S" in kinds,
         "zero_weights": min(3, sum(1 for w in case["weights"] if w == 0)), "inactive_flagged": _has_inactive(obs),
+        "negative_weight": any(w < 0 for w in case["weights"]), "route": case.get("route", "direct"),
+        "mask": case.get("mask") is not None, "info_keys": 2 if case.get("info2") else 1,
+        "user_copies": any(co.get("user") is not None for co in obs["A"]["calls"]),
+        "aggregate_skips": any(rq.get("active") is not None and not all(rq["active"])
+                               for co in obs["A"]["calls"] for rq in co["requests"]),
+        "ro_input": any((case["vseed"] + 2 * k) % 3 == 0 for k in range(len(obs["A"]["calls"]))),
         "filters": filt, "est": case["est"], "merge": case["merge"], "mode": case["mode"], "garbage": case.get("garb", "std"),
         "transforms": "".join(t for t, v in (("v", case["vt"]), ("o", case["ot"]), ("c", case["ct"])) if v) or "-",
         "nan_failures": bool(case["fails"]), "aborted": "abort" in outcomes, "raised": "raise" in outcomes,
@@ -1128,6 +1431,12 @@ def shrink(case):
         yield {**case, "merge": False}
     if case["mode"] != "memo":
         yield {**case, "mode": "memo"}
+    if case.get("mask") is not None:
+        yield {**case, "mask": None}
+    if case.get("info2"):
+        yield {**case, "info2": False}
+    if case.get("route", "direct") != "direct":
+        yield {**case, "route": "direct"}
     for k, (kind, arg) in enumerate(calls):
         if kind == "F" and len(arg) > 1:
             yield {**case, "calls": calls[:k] + [["F", arg[:-1]]] + calls[k + 1:]}
@@ -1146,7 +1455,7 @@ def shrink(case):
 def search(rng, case):
     if case is None:
         for i in range(600):
-            yield gen_one(rng, small=(i % 3 == 0), region=(None, "objfilter", "confilter")[i % 3])
+            yield gen_one(rng, small=(i % 3 == 0), region=(None, "objfilter", "confilter", "twosplit")[i % 4])
         return
     yield from shrink(case)
     for i in range(300):
@@ -1176,25 +1485,32 @@ def search(rng, case):
         yield c
 
 
-RULE = ("structured random: ensemble R<=6, perturbations P<=5, batches B<=4, 1-3 variables, 1-2 objectives, 0-2 constraints, "
-        "integer realization weights with zeros, 0-2 realization filters (sort/cvar on objectives/constraints, applied to any "
-        "subset, incl. the two 'only one kind filtered' regions), mean/stddev estimators, merged gradients, optional "
-        "variable/objective/constraint scalers (powers of two), NaN failures, histories of 1-4 calculate() calls (function "
-        "batches, combined calls, gradient-only calls hitting or missing the function cache), evaluator modes memo/reuse/fresh; "
-        "every case is executed twice with different finite garbage in the entries the implementation flagged inactive "
-        "(run A small, run B 2^40..2^100; a separate small stream uses 1e200 / finfo.max/2 = region of the known finding); "
+RULE = ("structured random: ensemble R<=6, perturbations P<=5, batches B<=4, 1-3 variables (optionally masked), 1-2 objectives, "
+        "0-2 constraints, integer realization weights with zeros and (without filters) negative entries, 0-2 realization filters "
+        "(sort/cvar on objectives/constraints, applied to any subset, incl. the two 'only one kind filtered' regions), mean/stddev "
+        "estimators, merged gradients, optional variable/objective/constraint scalers (powers of two), NaN failures, histories of "
+        "1-4 requests (function batches, combined calls, gradient-only calls hitting or missing the function cache) issued either "
+        "directly to EnsembleEvaluator.calculate, or through a real optimizer step of a Plan (scripted optimizer plug-in) or a real "
+        "evaluator step, where the results are what a FINISHED_EVALUATION observer receives; evaluator modes memo / reuse / "
+        "reuse-ro (read-only views of re-used buffers) / fresh, one or two evaluation_info keys; variable vectors passed as "
+        "writable arrays or read-only views and overwritten by the caller after every call; every case is executed twice with "
+        "different finite garbage in the entries the implementation flagged inactive and in every realization the aggregate flag "
+        "skips (run A small, run B 2^40..2^100; a separate small stream uses 1e200 / finfo.max/2 = region of the known finding); "
         "thorough adds the exhaustive grid R,P,B<=3 x all weight-zero patterns x all evaluation kinds. Non-trivial = a request "
         "with >= 2 rows was answered and (some entry was flagged inactive or the history has >= 2 calls); distinct = distinct case.")
 ASSUMPTIONS = [
-    "the user evaluator is a function of (variable row, realization, function index) plus scripted NaN failures; garbage is finite and only placed in entries the implementation itself flagged inactive",
+    "the user evaluator is a function of (variable row, realization, function index) plus scripted NaN failures; garbage is finite and only placed in entries the implementation itself flagged inactive (per entry or through the aggregate flag)",
     "garbage magnitudes <= 2^100 in the main stream (products and squares stay finite); larger garbage overflows in ropt's arithmetic: known finding C06:huge-garbage-overflow, exercised by a separate stream",
     "perturbations come from an injected deterministic sampler plug-in; variable bounds are infinite (truncation is C10's subject)",
     "scaler transforms use power-of-two scales so that transformed values are exact and provenance can be compared exactly",
     "function estimates are tied to the model's small mean/variance definitions; gradients are tied only through the two-run comparison (the least-squares solve is a black box of C02)",
+    "the evaluator does not write into the arrays it is handed while the call is in progress (it may afterwards: the monitor does)",
+    "gradient requests never use a vector within 1e-15 of, but different from, the cached one (the model's cache test is exact equality)",
 ]
 TRUSTED = [
-    "the run-time monitor of the harness (result subclass recording __setattr__, buffer shadow copies, np.shares_memory, digests of delivered results) is what ties Model/Store.v to CPython object identity; (d) is therefore partial",
+    "the run-time monitor of the harness (result subclass recording __setattr__, buffer shadow copies, np.shares_memory against every array the evaluator returned or was handed and against the caller's vector, writability of every delivered array and of its base, digests of everything reachable from delivered results - arrays, dict key sets, scalars - re-taken after later calls, after the caller re-uses its vector and after the evaluator overwrites its buffers and edits its evaluation_info dicts) is what ties Model/Store.v to CPython object identity; (d) is therefore partial",
     "numpy semantics of repeat/tile/reshape/vsplit are modelled (np_repeat/np_tile/chunk) and compared on every case, not verified from numpy's source",
+    "the scripted optimizer plug-in and the FINISHED_EVALUATION observer of the step routes are harness code; the steps, EnsembleOptimizer and the event delivery are the real ropt code",
 ]
 
 MANIFEST = {
@@ -1202,19 +1518,25 @@ MANIFEST = {
                    "for all R, P, B the label lists of the three request kinds are exactly the full product, each label once, unperturbed "
                    "rows labelled -1, and row i carries the (user-domain) vector of label i; every reported per-realization value is the "
                    "(transformed, NaN-propagated) value returned for the row with that label, also per batch; entries are flagged inactive "
-                   "only at zero weight and, for split gradient evaluations, exactly at zero weight in force; mean/variance estimates and "
-                   "mean/stddev gradient sums are invariant under arbitrary changes of zero-weight entries (non-interference); in the store "
-                   "model no operation of any history writes a location owned by the evaluator and every delivered array is a fresh ropt-owned "
-                   "buffer never written after delivery. The model is tied to the code on every run by an in-Coq correspondence on real "
-                   "EnsembleEvaluator histories with a recording, memoising, monitored evaluator, each run twice with different garbage."),
+                   "only at zero weight and, for split gradient evaluations, exactly at zero weight in force; the aggregate flag "
+                   "EvaluatorContext.active skips a realization iff every objective and constraint entry of it is flagged inactive; outputs "
+                   "that differ only at flagged entries give the same mean/variance estimates under the weights in force, and mean/stddev "
+                   "gradient sums are invariant under arbitrary changes of zero-weight entries (non-interference); in the store model (three "
+                   "owners: evaluator, caller, ropt) no operation of any history writes a location ropt does not own, every delivered array - "
+                   "also of the user-domain copies handed to event handlers - is a fresh ropt-owned buffer that nobody writes after delivery, "
+                   "although the evaluator overwrites its buffers and every matrix it was handed and the caller overwrites its vector. The "
+                   "model is tied to the code on every run by an in-Coq correspondence on real histories (direct calls of "
+                   "EnsembleEvaluator.calculate, real optimizer and evaluator steps) with a recording, memoising, monitored evaluator, each "
+                   "run twice with different garbage."),
     "level_note": ("(d) no-mutation/snapshots is PARTIAL: the theorem is about the explicit store model; CPython aliasing is outside a pure "
-                   "model and is tied only by the harness's run-time monitor (setattr recorder, buffer shadows, shares_memory, re-hashing of "
-                   "delivered results after later calls and after buffer reuse), whose observed foreign writes are compared in Coq with the "
-                   "model's (empty) list. Inertness of gradients is proved for an abstract least-squares solve and tied to the code by the "
-                   "two-run comparison only; function estimates are tied to the model's mean/variance definitions (stddev via its square). "
-                   "Trusted: Coq kernel + VM, the Python driver/monitor and Gallina printer, numpy layout primitives as modelled. Known "
-                   "finding C06:huge-garbage-overflow (garbage >= 1e150 overflows to NaN) is confirmed by a separate stream. All theorems "
-                   "print 'Closed under the global context'."),
-    "technique": "Coq proof (list/permutation induction, store-typing soundness) on an executable Gallina model + in-Coq differential correspondence with the real EnsembleEvaluator + run-time aliasing monitor",
+                   "model and is tied only by the harness's run-time monitor (setattr recorder, buffer shadows, shares_memory, writability of "
+                   "arrays and their bases, re-hashing of everything reachable from delivered results after later calls, after the caller "
+                   "re-uses its vector and after buffer reuse), whose observed foreign writes are compared in Coq with the model's (empty) "
+                   "list. Inertness of gradients is proved for an abstract least-squares solve and tied to the code by the two-run comparison "
+                   "only; function estimates are tied to the model's mean/variance definitions (stddev via its square). The cache test of "
+                   "the model is exact equality (the code uses allclose with atol 1e-15). Trusted: Coq kernel + VM, the Python "
+                   "driver/monitor and Gallina printer, numpy layout primitives as modelled. Known finding C06:huge-garbage-overflow (garbage "
+                   ">= 1e150 overflows to NaN) is confirmed by a separate stream. All theorems print 'Closed under the global context'."),
+    "technique": "Coq proof (list/permutation induction, store-typing soundness) on an executable Gallina model + in-Coq differential correspondence with the real EnsembleEvaluator (direct and through plan steps) + run-time aliasing monitor",
     "design_ref": "DESIGN.md section 4, C06",
 }
